@@ -333,6 +333,21 @@ fn programs(depth: usize, offset: usize) -> Vec<(String, Vec<(String, String)>)>
         let src = format!("type Box<T> = {{ v: T }};\nparse.buildParsers<{{ A: Box<\"{}\">, B: Box<\"{}\"> }}>();\n", lits[i], lits[j]);
         out.push((format!("Box<{:?}> and Box<{:?}>", lits[i], lits[j]), vec![("entry.ts".to_string(), src)]));
     } }
+    // generated: unions of 2 to 4 object types discriminated by a property whose type is a set of string literals, the
+    // sets overlapping in every way over four literals (a second property tells the members apart)
+    let dl = ["a", "b", "c", "d"];
+    let dsets: Vec<String> = (1..16u8).map(|m| (0..4).filter(|i| (m >> i) & 1 == 1).map(|i| format!("\"{}\"", dl[i])).collect::<Vec<_>>().join(" | ")).collect();
+    let n = dsets.len();
+    for i in 0..n { for j in i..n { for k in j..=n { for l in k..=n {
+        // k == n / l == n stand for "no third / fourth member"
+        if k == n && l != n { continue; }
+        let mut chosen = vec![i, j];
+        if k < n { chosen.push(k); }
+        if l < n { if k == n { continue; } chosen.push(l); }
+        let members: Vec<String> = chosen.iter().enumerate().map(|(m, si)| format!("{{ t: {}, p{}: string }}", dsets[*si], m)).collect();
+        let src = format!("type X = {};\nparse.buildParsers<{{ X: X }}>();\n", members.join(" | "));
+        out.push((format!("discriminated union {}", members.join(" | ")), vec![("entry.ts".to_string(), src)]));
+    } } } }
     let ls = leaves();
     for l in &ls { out.push((l.to_string(), single(l))); }
     let mut d1: Vec<String> = vec![];
